@@ -1,1 +1,931 @@
-//! byzsim — engine skeleton (see DESIGN.md §4/§5).
+//! byzsim — Byzantine frame injection (C04).
+//!
+//! One case = a target handler chain, a short legitimate history built by the case's own op list, and
+//! one forged frame (or packet number) whose field under test carries a value from
+//! `{0, 1, state-relative boundary ± 1, 2^8, 2^12, 2^16, 2^20, 2^22, 2^31 ± 1, 2^62 − 1}`.
+//! Every forged frame is written byte by byte from RFC 9000 §19 (`wire.rs`), decoded by the library's own
+//! `FrameReader` and handed to the handlers in the order the connection's frame dispatcher uses.
+//!
+//! Two oracles: work (allocation counter and thread CPU time along a value ladder) and error (a table
+//! written from RFC 9000 §19–§20). See `REPORT` in the crate's final notes / DESIGN §5 C04.
+pub mod cid;
+pub mod journal;
+pub mod meter;
+pub mod stream;
+pub mod wire;
+
+use std::{collections::BTreeMap, sync::mpsc, time::Duration};
+
+use serde::{Deserialize, Serialize};
+use simcore::{Engine, Outcome, Rng, Tier, TraceHash, engine::intern};
+
+use crate::meter::{Cost, HandlerRun};
+
+pub const MAX62: u64 = wire::MAX62;
+/// the value ladder (exponents); it tops out at 2^22 so that the harness survives a linear handler
+pub const LADDER: [u8; 5] = [8, 12, 16, 20, 22];
+
+// ---------------------------------------------------------------------------------------------
+// values
+
+#[derive(Clone, Copy, Debug, Serialize, Deserialize, PartialEq, Eq)]
+pub enum Base {
+    Zero,
+    Pow2(u8),
+    Max62,
+    /// ACK: the next packet number the endpoint will send (= first number never sent)
+    NextPn,
+    /// ACK: the frame's own Largest Acknowledged
+    Largest,
+    /// ACK: the value of this field at which the range reaches packet number 0 exactly
+    Floor,
+    /// packet number: the next expected packet number (largest received + 1)
+    Expected,
+    /// NEW_CONNECTION_ID: the next sequence number the peer has not used yet
+    PeerNextSeq,
+    /// NEW_CONNECTION_ID: the largest Retire Prior To received so far
+    PeerRpt,
+    /// RETIRE_CONNECTION_ID: the next sequence number the endpoint has not issued yet
+    LocalNextSeq,
+    /// the endpoint's active_connection_id_limit
+    CidLimit,
+    /// streams: the advertised stream-count limit for the frame's stream type
+    StreamLimit,
+    /// streams: number of streams of that type the endpoint has opened itself
+    LocalOpened,
+    /// streams: the advertised per-stream receive window of the frame's stream
+    Window,
+    /// streams: the largest offset received so far on the frame's stream
+    StreamLargest,
+    /// streams: largest offset on this stream that keeps the connection-level window respected
+    ConnRoom,
+    /// streams: the final size of the frame's stream, if known (else the largest offset)
+    FinalSize,
+    /// crypto: the largest offset received so far
+    CryptoLargest,
+}
+
+#[derive(Clone, Copy, Debug, Serialize, Deserialize, PartialEq, Eq)]
+pub struct Val {
+    pub base: Base,
+    pub off: i64,
+}
+
+impl Val {
+    pub const fn abs(v: u64) -> Val {
+        // absolute values are kept symbolic where possible so that replay files read well
+        Val { base: Base::Zero, off: v as i64 }
+    }
+    pub fn pow(k: u8) -> Val {
+        Val { base: Base::Pow2(k), off: 0 }
+    }
+    pub fn rel(base: Base, off: i64) -> Val {
+        Val { base, off }
+    }
+    pub fn max() -> Val {
+        Val { base: Base::Max62, off: 0 }
+    }
+    /// the magnitude a value has whatever the state is (anchors count as small: histories are short)
+    pub fn static_magnitude(&self) -> u64 {
+        let b = match self.base {
+            Base::Pow2(k) => 1u64 << k.min(62),
+            Base::Max62 => MAX62,
+            _ => 0,
+        };
+        (b as i128 + self.off as i128).clamp(0, MAX62 as i128) as u64
+    }
+    pub fn is_anchored(&self) -> bool {
+        !matches!(self.base, Base::Zero | Base::Pow2(_) | Base::Max62)
+    }
+    pub fn resolve(&self, anchor: &dyn Fn(Base) -> u64) -> u64 {
+        let b = match self.base {
+            Base::Zero => 0,
+            Base::Pow2(k) => 1u64 << k.min(62),
+            Base::Max62 => MAX62,
+            a => anchor(a),
+        };
+        (b as i128 + self.off as i128).clamp(0, MAX62 as i128) as u64
+    }
+    pub fn class(&self) -> &'static str {
+        match self.base {
+            Base::Zero if self.off == 0 => "zero",
+            Base::Zero if self.off == 1 => "one",
+            Base::Zero => "small",
+            Base::Pow2(k) if k <= 22 => "ladder",
+            Base::Pow2(_) => "pow31",
+            Base::Max62 => "max62",
+            _ => "boundary",
+        }
+    }
+}
+
+// ---------------------------------------------------------------------------------------------
+// forged frames
+
+#[derive(Clone, Copy, Debug, Serialize, Deserialize, PartialEq, Eq)]
+pub struct Sid {
+    /// initiated by the endpoint under test
+    pub local: bool,
+    pub uni: bool,
+    pub index: Val,
+}
+
+#[derive(Clone, Copy, Debug, Serialize, Deserialize, PartialEq, Eq)]
+pub enum Field {
+    Largest,
+    Delay,
+    FirstRange,
+    Gap(u8),
+    Range(u8),
+    Ecn(u8),
+    Jump,
+    Seq,
+    Rpt,
+    Limit,
+    Index,
+    Offset,
+    FinalSize,
+    ErrCode,
+    Max,
+}
+
+#[derive(Clone, Debug, Serialize, Deserialize, PartialEq)]
+pub enum Forged {
+    Ack { largest: Val, delay: Val, first_range: Val, ranges: Vec<(Val, Val)>, ecn: Option<[Val; 3]> },
+    /// a packet whose number decodes to `target`; `ack_eliciting` content
+    Pn { target: Val, ack_eliciting: bool },
+    NewCid { seq: Val, rpt: Val },
+    RetireCid { seq: Val },
+    /// peer's active_connection_id_limit transport parameter, applied at handshake completion
+    SetLimit { limit: Val },
+    Stream { sid: Sid, offset: Val, len: u16, fin: bool },
+    ResetStream { sid: Sid, err: Val, final_size: Val },
+    StopSending { sid: Sid, err: Val },
+    MaxStreamData { sid: Sid, max: Val },
+    StreamDataBlocked { sid: Sid, limit: Val },
+    MaxData { max: Val },
+    DataBlocked { limit: Val },
+    MaxStreams { uni: bool, max: Val },
+    StreamsBlocked { uni: bool, limit: Val },
+    Crypto { offset: Val, len: u16 },
+}
+
+impl Forged {
+    pub fn frame_name(&self) -> &'static str {
+        match self {
+            Forged::Ack { .. } => "ack",
+            Forged::Pn { .. } => "packet",
+            Forged::NewCid { .. } => "new_connection_id",
+            Forged::RetireCid { .. } => "retire_connection_id",
+            Forged::SetLimit { .. } => "transport_parameter",
+            Forged::Stream { .. } => "stream",
+            Forged::ResetStream { .. } => "reset_stream",
+            Forged::StopSending { .. } => "stop_sending",
+            Forged::MaxStreamData { .. } => "max_stream_data",
+            Forged::StreamDataBlocked { .. } => "stream_data_blocked",
+            Forged::MaxData { .. } => "max_data",
+            Forged::DataBlocked { .. } => "data_blocked",
+            Forged::MaxStreams { .. } => "max_streams",
+            Forged::StreamsBlocked { .. } => "streams_blocked",
+            Forged::Crypto { .. } => "crypto",
+        }
+    }
+
+    pub fn field_name(&self, f: Field) -> String {
+        let n = match (self, f) {
+            (_, Field::Largest) => "largest",
+            (_, Field::Delay) => "delay",
+            (_, Field::FirstRange) => "first_range",
+            (_, Field::Gap(_)) => "gap",
+            (_, Field::Range(_)) => "range",
+            (_, Field::Ecn(_)) => "ecn_count",
+            (_, Field::Jump) => "pn-jump",
+            (_, Field::Seq) => "sequence",
+            (_, Field::Rpt) => "retire_prior_to",
+            (_, Field::Limit) => "active_connection_id_limit",
+            (_, Field::Index) => "stream_id",
+            (_, Field::Offset) => "offset",
+            (_, Field::FinalSize) => "final_size",
+            (_, Field::ErrCode) => "error_code",
+            (_, Field::Max) => "maximum",
+        };
+        if matches!(f, Field::Jump) { n.to_string() } else { format!("{}.{}", self.frame_name(), n) }
+    }
+
+    pub fn get(&self, f: Field) -> Option<Val> {
+        let mut c = self.clone();
+        c.slot(f).map(|v| *v)
+    }
+
+    fn slot(&mut self, f: Field) -> Option<&mut Val> {
+        match (self, f) {
+            (Forged::Ack { largest, .. }, Field::Largest) => Some(largest),
+            (Forged::Ack { delay, .. }, Field::Delay) => Some(delay),
+            (Forged::Ack { first_range, .. }, Field::FirstRange) => Some(first_range),
+            (Forged::Ack { ranges, .. }, Field::Gap(i)) => ranges.get_mut(i as usize).map(|r| &mut r.0),
+            (Forged::Ack { ranges, .. }, Field::Range(i)) => ranges.get_mut(i as usize).map(|r| &mut r.1),
+            (Forged::Ack { ecn: Some(e), .. }, Field::Ecn(i)) => e.get_mut(i as usize),
+            (Forged::Pn { target, .. }, Field::Jump) => Some(target),
+            (Forged::NewCid { seq, .. }, Field::Seq) => Some(seq),
+            (Forged::NewCid { rpt, .. }, Field::Rpt) => Some(rpt),
+            (Forged::RetireCid { seq }, Field::Seq) => Some(seq),
+            (Forged::SetLimit { limit }, Field::Limit) => Some(limit),
+            (Forged::Stream { sid, .. }, Field::Index)
+            | (Forged::ResetStream { sid, .. }, Field::Index)
+            | (Forged::StopSending { sid, .. }, Field::Index)
+            | (Forged::MaxStreamData { sid, .. }, Field::Index)
+            | (Forged::StreamDataBlocked { sid, .. }, Field::Index) => Some(&mut sid.index),
+            (Forged::Stream { offset, .. }, Field::Offset) | (Forged::Crypto { offset, .. }, Field::Offset) => Some(offset),
+            (Forged::ResetStream { final_size, .. }, Field::FinalSize) => Some(final_size),
+            (Forged::ResetStream { err, .. }, Field::ErrCode) | (Forged::StopSending { err, .. }, Field::ErrCode) => Some(err),
+            (Forged::MaxStreamData { max, .. }, Field::Max)
+            | (Forged::MaxData { max }, Field::Max)
+            | (Forged::MaxStreams { max, .. }, Field::Max) => Some(max),
+            (Forged::StreamDataBlocked { limit, .. }, Field::Max)
+            | (Forged::DataBlocked { limit }, Field::Max)
+            | (Forged::StreamsBlocked { limit, .. }, Field::Max) => Some(limit),
+            _ => None,
+        }
+    }
+
+    /// the same frame with the field under test at `v` (ladder step)
+    pub fn with(&self, f: Field, v: u64) -> Forged {
+        let mut c = self.clone();
+        match (&mut c, f) {
+            // a jump is relative to the expected packet number by construction
+            (Forged::Pn { target, .. }, Field::Jump) => *target = Val::rel(Base::Expected, v as i64),
+            // Retire Prior To may not exceed Sequence Number: the two move together
+            (Forged::NewCid { seq, rpt }, Field::Rpt) => {
+                *rpt = Val::abs(v);
+                *seq = Val::abs(v);
+            }
+            _ => {
+                if let Some(s) = c.slot(f) {
+                    *s = Val::abs(v);
+                }
+            }
+        }
+        c
+    }
+
+    /// the same frame with the field under test neutral but every coupled field as in `self`:
+    /// its cost is subtracted so that only the cost attributable to the field remains
+    pub fn control(&self, f: Field) -> Option<Forged> {
+        match (self, f) {
+            (Forged::NewCid { seq, .. }, Field::Rpt) => Some(Forged::NewCid { seq: *seq, rpt: Val::rel(Base::PeerRpt, 0) }),
+            _ => None,
+        }
+    }
+}
+
+// ---------------------------------------------------------------------------------------------
+// histories
+
+#[derive(Clone, Debug, Serialize, Deserialize, PartialEq)]
+pub enum Hist {
+    Journal(journal::JournalHist),
+    Cid(cid::CidHist),
+    Stream(stream::StreamHist),
+    Crypto(stream::CryptoHist),
+}
+
+impl Hist {
+    pub fn len(&self) -> usize {
+        match self {
+            Hist::Journal(h) => h.ops.len(),
+            Hist::Cid(h) => h.ops.len(),
+            Hist::Stream(h) => h.ops.len(),
+            Hist::Crypto(h) => h.ops.len(),
+        }
+    }
+    pub fn is_empty(&self) -> bool {
+        self.len() == 0
+    }
+    fn truncated(&self, n: usize) -> Hist {
+        let mut c = self.clone();
+        match &mut c {
+            Hist::Journal(h) => h.ops.truncate(n),
+            Hist::Cid(h) => h.ops.truncate(n),
+            Hist::Stream(h) => h.ops.truncate(n),
+            Hist::Crypto(h) => h.ops.truncate(n),
+        }
+        c
+    }
+    fn without(&self, i: usize) -> Hist {
+        let mut c = self.clone();
+        match &mut c {
+            Hist::Journal(h) => drop(h.ops.remove(i)),
+            Hist::Cid(h) => drop(h.ops.remove(i)),
+            Hist::Stream(h) => drop(h.ops.remove(i)),
+            Hist::Crypto(h) => drop(h.ops.remove(i)),
+        }
+        c
+    }
+}
+
+#[derive(Clone, Debug, Serialize, Deserialize)]
+pub struct Case {
+    pub seed: u64,
+    pub hist: Hist,
+    pub forged: Forged,
+    /// the field under test (the one the ladder varies)
+    pub field: Field,
+}
+
+// ---------------------------------------------------------------------------------------------
+// probe results
+
+#[derive(Clone, Debug, PartialEq)]
+pub enum Answer {
+    Ok,
+    /// connection error of this kind (from the frame decoder or from a handler)
+    Err(String),
+    /// the packet was dropped before any frame was processed (duplicate / too old packet number): no error
+    Dropped(&'static str),
+    Panic,
+}
+
+#[derive(Clone, Debug)]
+pub struct Expect {
+    /// name of the RFC rule (signature site of `error-kind`)
+    pub case: String,
+    /// "Ok" or error kind names; empty = no expectation
+    pub allowed: Vec<&'static str>,
+    /// true: the frame is legal and a rejection is only counted, not reported
+    pub legal: bool,
+}
+
+#[derive(Clone, Debug)]
+pub struct ProbeResult {
+    pub handlers: Vec<HandlerRun>,
+    pub answer: Answer,
+    pub frame_len: usize,
+    /// entries of state the endpoint held before the forged frame
+    pub units: u64,
+    pub expect: Option<Expect>,
+    /// frames the endpoint queued for the peer while handling the forged frame
+    pub emitted: u64,
+    pub notes: Vec<&'static str>,
+    pub detail: String,
+    pub harness_error: Option<String>,
+}
+
+impl ProbeResult {
+    pub fn new() -> Self {
+        ProbeResult { handlers: vec![], answer: Answer::Ok, frame_len: 0, units: 0, expect: None, emitted: 0, notes: vec![], detail: String::new(), harness_error: None }
+    }
+    pub fn harness(msg: impl Into<String>) -> Self {
+        let mut r = Self::new();
+        r.harness_error = Some(msg.into());
+        r
+    }
+}
+
+impl Default for ProbeResult {
+    fn default() -> Self {
+        Self::new()
+    }
+}
+
+/// One execution of history + forged frame on the calling thread, on a fresh paused tokio clock.
+pub fn probe(case: &Case, forged: &Forged) -> ProbeResult {
+    simcore::entropy::seed_thread_entropy(case.seed);
+    let rt = tokio::runtime::Builder::new_current_thread().enable_time().start_paused(true).build().expect("runtime");
+    rt.block_on(async {
+        match &case.hist {
+            Hist::Journal(h) => journal::probe(h, forged).await,
+            Hist::Cid(h) => cid::probe(h, forged, case.seed),
+            Hist::Stream(h) => stream::probe(h, forged),
+            Hist::Crypto(h) => stream::probe_crypto(h, forged),
+        }
+    })
+}
+
+// ---------------------------------------------------------------------------------------------
+// the driver: ladder, point probe, oracles
+
+enum Msg {
+    Beat(String),
+    Done(Box<Outcome>),
+}
+
+struct Driver<'a> {
+    case: &'a Case,
+    out: Outcome,
+    th: TraceHash,
+    tx: &'a mpsc::Sender<Msg>,
+    field_name: String,
+    probes: u64,
+}
+
+/// per handler: cost at the lowest ladder step
+type Bottom = BTreeMap<&'static str, Cost>;
+
+impl Driver<'_> {
+    fn beat(&self, what: &str) {
+        let _ = self.tx.send(Msg::Beat(what.to_string()));
+    }
+
+    /// run one probe (with the optional control probe subtracted) and fold panics / error oracle in
+    fn run(&mut self, forged: &Forged, label: &str) -> Option<ProbeResult> {
+        self.beat(&format!("{}:{}", label, self.field_name));
+        self.probes += 1;
+        let mut r = probe(self.case, forged);
+        if let Some(e) = r.harness_error.take() {
+            self.out.harness_error = Some(format!("{e} [{label}]"));
+            return None;
+        }
+        if let Some(ctrl) = forged.control(self.case.field) {
+            self.beat(&format!("{}:{}:control", label, self.field_name));
+            let c = probe(self.case, &ctrl);
+            if c.harness_error.is_none() {
+                for h in r.handlers.iter_mut() {
+                    if let Some(ch) = c.handlers.iter().find(|x| x.name == h.name) {
+                        h.cost.alloc = h.cost.alloc.saturating_sub(ch.cost.alloc);
+                        h.cost.cpu_ns = h.cost.cpu_ns.saturating_sub(ch.cost.cpu_ns);
+                    }
+                }
+            }
+        }
+        // panics
+        for h in &r.handlers {
+            self.out.stats.bump(intern(&format!("probe.handler.{}", h.name)));
+            if let Some(p) = &h.panic {
+                if p.message.starts_with("[HARNESS]") {
+                    self.out.harness_error = Some(format!("harness panic inside handler {}: {} at {}", h.name, p.message, p.location));
+                    return None;
+                }
+                self.out.stats.bump("probe.result.panic");
+                self.out.violate("panic", format!("{}:{}", h.name, self.field_name), format!("{} at {} [{}; {}]", p.message, p.location, label, r.detail), self.probes);
+            }
+        }
+        // error oracle
+        let ans = match &r.answer {
+            Answer::Ok => "Ok".to_string(),
+            Answer::Err(k) => k.clone(),
+            Answer::Dropped(w) => format!("Dropped-{w}"),
+            Answer::Panic => "Panic".to_string(),
+        };
+        self.out.stats.bump(intern(&format!("probe.result.{ans}")));
+        for n in &r.notes {
+            self.out.stats.bump(n);
+        }
+        self.th.add_str(&ans);
+        self.th.add(r.emitted);
+        self.th.add(r.handlers.len() as u64);
+        if let Some(e) = &r.expect {
+            if !e.allowed.is_empty() && r.answer != Answer::Panic && !e.allowed.iter().any(|a| *a == ans) {
+                if e.legal {
+                    self.out.stats.bump(intern(&format!("probe.legal_rejected.{}", e.case)));
+                } else {
+                    self.out.violate(
+                        "error-kind",
+                        e.case.clone(),
+                        format!("RFC 9000 allows {:?}, the endpoint answered {ans} [{label}; {}]", e.allowed, r.detail),
+                        self.probes,
+                    );
+                }
+            } else if !e.legal && !e.allowed.is_empty() && r.answer != Answer::Panic {
+                self.out.stats.bump(intern(&format!("probe.rejected_as_prescribed.{}", e.case)));
+            }
+        }
+        Some(r)
+    }
+
+    /// work oracle for one probe result against the ladder bottom; returns the handlers flagged (mem, cpu-suspect)
+    fn judge(&mut self, forged: &Forged, r: &ProbeResult, bottom: &Bottom, label: &str) -> (bool, bool) {
+        let n = r.frame_len as u64 + r.units;
+        let mut mem_flag = false;
+        let mut cpu_flag = false;
+        for h in &r.handlers {
+            let b = bottom.get(h.name).copied().unwrap_or_default();
+            if meter::mem_excess(h.cost.alloc, b.alloc, n) {
+                mem_flag = true;
+                self.out.violate(
+                    "work-mem",
+                    format!("{}:{}", h.name, self.field_name),
+                    format!(
+                        "{} allocated {} bytes handling one {}-byte frame with {} entries of state held ({} bytes at the ladder bottom) [{label}; {}]",
+                        h.name, h.cost.alloc, r.frame_len, r.units, b.alloc, r.detail
+                    ),
+                    self.probes,
+                );
+            } else if meter::cpu_excess(h.cost.cpu_ns, b.cpu_ns, n) {
+                // confirm: minimum of three runs on freshly rebuilt identical state
+                let mut min = h.cost.cpu_ns;
+                for _ in 0..2 {
+                    if !meter::cpu_excess(min, b.cpu_ns, n) {
+                        break;
+                    }
+                    self.beat(&format!("{}:{}:repeat", label, self.field_name));
+                    let again = probe(self.case, forged);
+                    let mut c = again.handlers.iter().find(|x| x.name == h.name).map(|x| x.cost.cpu_ns).unwrap_or(0);
+                    if let Some(ctrl) = forged.control(self.case.field) {
+                        let cr = probe(self.case, &ctrl);
+                        c = c.saturating_sub(cr.handlers.iter().find(|x| x.name == h.name).map(|x| x.cost.cpu_ns).unwrap_or(0));
+                    }
+                    min = min.min(c);
+                }
+                if meter::cpu_excess(min, b.cpu_ns, n) {
+                    cpu_flag = true;
+                    self.out.violate(
+                        "work-cpu",
+                        format!("{}:{}", h.name, self.field_name),
+                        format!(
+                            "{} used at least {} us of CPU handling one {}-byte frame with {} entries of state held ({} ns at the ladder bottom) [{label}; {}]",
+                            h.name, min / 1000, r.frame_len, r.units, b.cpu_ns, r.detail
+                        ),
+                        self.probes,
+                    );
+                }
+            }
+        }
+        (mem_flag, cpu_flag)
+    }
+
+    fn drive(&mut self) {
+        let case = self.case;
+        let Some(val) = case.forged.get(case.field) else {
+            self.out.harness_error = Some(format!("field {:?} does not exist in {:?}", case.field, case.forged));
+            return;
+        };
+        self.out.stats.bump(intern(&format!("fault.{}", self.field_name)));
+        self.out.stats.bump(intern(&format!("fault.value.{}", val.class())));
+        self.th.add_str(&self.field_name);
+        // a packet-number jump is relative to the expected number by construction; its size is the offset
+        let (v, ladderable) = match (case.field, val.base) {
+            (Field::Jump, Base::Expected) => (val.off.max(0) as u64, val.off >= 1 << LADDER[0]),
+            _ => (val.static_magnitude(), !val.is_anchored() && val.static_magnitude() >= 1 << LADDER[0]),
+        };
+        let debug = std::env::var("BYZSIM_DEBUG").is_ok();
+        let mut dependent = false;
+        let mut covered = false;
+        let mut bottom: Bottom = BTreeMap::new();
+        if ladderable {
+            for k in LADDER {
+                let step = 1u64 << k;
+                if step > v {
+                    break;
+                }
+                let f = case.forged.with(case.field, step);
+                let label = format!("ladder 2^{k}");
+                let Some(r) = self.run(&f, &label) else { return };
+                if debug {
+                    eprintln!("[byzsim] {} {} -> {:?} {:?}", self.field_name, label, r.answer, r.handlers.iter().map(|h| (h.name, h.cost.alloc, h.cost.cpu_ns / 1000)).collect::<Vec<_>>());
+                }
+                if k == LADDER[0] {
+                    for h in &r.handlers {
+                        bottom.insert(h.name, h.cost);
+                    }
+                    // the bottom is judged as a point (absolute bound only matters higher up)
+                } else {
+                    let (m, c) = self.judge(&f, &r, &bottom, &label);
+                    dependent |= m | c;
+                    if m {
+                        // allocation grows with the value: climbing further only costs memory
+                        break;
+                    }
+                }
+                if r.handlers.iter().any(|h| h.panic.is_some()) {
+                    // a handler that panics at this value is not probed with larger ones
+                    dependent = true;
+                    break;
+                }
+                if step == v {
+                    covered = true;
+                }
+            }
+            self.out.stats.bump(if dependent { "probe.ladder.value_dependent" } else { "probe.ladder.value_independent" });
+        }
+        if !covered && (v <= 1 << 22 || !dependent) {
+            let label = format!("point {}", val.class());
+            let f = case.forged.clone();
+            let Some(r) = self.run(&f, &label) else { return };
+            if debug {
+                eprintln!("[byzsim] {} {} -> {:?} {:?}", self.field_name, label, r.answer, r.handlers.iter().map(|h| (h.name, h.cost.alloc, h.cost.cpu_ns / 1000)).collect::<Vec<_>>());
+            }
+            if !bottom.is_empty() {
+                self.judge(&f, &r, &bottom, &label);
+            }
+        } else if !covered {
+            self.out.stats.bump("probe.huge_value_withheld");
+        }
+    }
+}
+
+fn run_case(case: &Case, tx: &mpsc::Sender<Msg>) -> Outcome {
+    let mut d = Driver { case, out: Outcome::default(), th: TraceHash::default(), tx, field_name: case.forged.field_name(case.field), probes: 0 };
+    d.drive();
+    let mut out = d.out;
+    out.trace_hash = d.th.get();
+    out.nontrivial = !case.hist.is_empty() && d.probes > 0;
+    out
+}
+
+pub struct ByzSim;
+
+impl Engine for ByzSim {
+    type Case = Case;
+    fn name(&self) -> &'static str {
+        "byzsim"
+    }
+    fn components_real(&self) -> Vec<&'static str> {
+        vec![
+            "qbase::frame::FrameReader (decoder of every forged frame)",
+            "qcongestion::ArcCC (on_ack_rcvd, on_pkt_sent, on_pkt_rcvd, need_ack, do_tick)",
+            "qrecovery::journal::{ArcSentJournal, ArcRcvdJournal}",
+            "qbase::cid::{ArcLocalCids, ArcRemoteCids, ArcCidCell}",
+            "qinterface::component::route::{QuicRouter, QuicRouterRegistry}",
+            "qrecovery::streams::DataStreams (Incoming/Outgoing, Reader/Writer, listener)",
+            "qbase::flow::FlowController",
+            "qbase::param::{ArcParameters, ClientParameters, ServerParameters}",
+            "qrecovery::crypto::CryptoStream (incoming, reader)",
+            "tokio paused clock",
+        ]
+    }
+    fn components_stub(&self) -> Vec<&'static str> {
+        vec![
+            "packet protection and packet assembly (frames are handed over as decrypted payload)",
+            "journal payloads (u32 tags instead of GuaranteedFrame)",
+            "the peer (a model that issues legitimate frames)",
+            "frame queue towards the peer (a recording sink instead of ArcReliableFrameDeque)",
+        ]
+    }
+
+    fn wall_limit(&self) -> Duration {
+        Duration::from_secs(120)
+    }
+
+    fn generate(&self, _index: u64, seed: u64, _tier: Tier) -> Case {
+        generate(seed)
+    }
+
+    fn execute(&self, case: &Case) -> Outcome {
+        // every probe runs on a helper thread under a 5 s watchdog (a handler that never returns must not
+        // take the harness with it); the helper owns the allocation and CPU meters (both per thread)
+        let (tx, rx) = mpsc::channel::<Msg>();
+        let c = case.clone();
+        let spawned = std::thread::Builder::new().name("byzsim-probe".into()).stack_size(8 << 20).spawn(move || {
+            simcore::panics::install();
+            simcore::entropy::seed_thread_entropy(c.seed);
+            let out = match simcore::panics::guarded(|| run_case(&c, &tx)) {
+                Ok(o) => o,
+                Err(rec) => {
+                    let mut o = Outcome::default();
+                    o.harness_error = Some(format!("harness panic on the probe thread: {} at {}", rec.message, rec.location));
+                    o
+                }
+            };
+            let _ = tx.send(Msg::Done(Box::new(out)));
+        });
+        let handle = match spawned {
+            Ok(h) => h,
+            Err(e) => {
+                let mut o = Outcome::default();
+                o.harness_error = Some(format!("cannot spawn the probe thread: {e}"));
+                return o;
+            }
+        };
+        let mut last = String::from("start");
+        loop {
+            match rx.recv_timeout(Duration::from_secs(5)) {
+                Ok(Msg::Beat(s)) => last = s,
+                Ok(Msg::Done(o)) => {
+                    let _ = handle.join();
+                    return *o;
+                }
+                Err(mpsc::RecvTimeoutError::Timeout) => {
+                    // the helper is abandoned (it may never return)
+                    let mut o = Outcome::default();
+                    let field = case.forged.field_name(case.field);
+                    o.violate("work-cpu", format!("{}:{}:timeout", target_name(&case.forged), field), format!("probe '{last}' did not return within 5 s"), 0);
+                    return o;
+                }
+                Err(mpsc::RecvTimeoutError::Disconnected) => {
+                    let mut o = Outcome::default();
+                    o.harness_error = Some(format!("probe thread died during '{last}'"));
+                    return o;
+                }
+            }
+        }
+    }
+
+    fn shrink(&self, case: &Case) -> Vec<Case> {
+        let mut v = Vec::new();
+        let n = case.hist.len();
+        if n > 0 {
+            v.push(Case { hist: case.hist.truncated(0), ..case.clone() });
+        }
+        if n > 1 {
+            v.push(Case { hist: case.hist.truncated(n / 2), ..case.clone() });
+            v.push(Case { hist: case.hist.truncated(n - 1), ..case.clone() });
+        }
+        for i in (0..n).rev().take(60) {
+            v.push(Case { hist: case.hist.without(i), ..case.clone() });
+        }
+        // simpler forged frame: drop ack ranges / ecn, neutral values in the other fields
+        if let Forged::Ack { largest, delay, first_range, ranges, ecn } = &case.forged {
+            let keep = match case.field {
+                Field::Gap(i) | Field::Range(i) => i as usize + 1,
+                _ => 0,
+            };
+            if ranges.len() > keep {
+                v.push(Case { forged: Forged::Ack { largest: *largest, delay: *delay, first_range: *first_range, ranges: ranges[..keep].to_vec(), ecn: *ecn }, ..case.clone() });
+            }
+            if ecn.is_some() && !matches!(case.field, Field::Ecn(_)) {
+                v.push(Case { forged: Forged::Ack { largest: *largest, delay: *delay, first_range: *first_range, ranges: ranges.clone(), ecn: None }, ..case.clone() });
+            }
+            if case.field != Field::Delay && *delay != Val::abs(0) {
+                v.push(Case { forged: Forged::Ack { largest: *largest, delay: Val::abs(0), first_range: *first_range, ranges: ranges.clone(), ecn: *ecn }, ..case.clone() });
+            }
+        }
+        match &case.forged {
+            Forged::Stream { sid, offset, len, fin } if *len > 1 => {
+                v.push(Case { forged: Forged::Stream { sid: *sid, offset: *offset, len: 1, fin: *fin }, ..case.clone() });
+            }
+            Forged::Crypto { offset, len } if *len > 1 => {
+                v.push(Case { forged: Forged::Crypto { offset: *offset, len: 1 }, ..case.clone() });
+            }
+            _ => {}
+        }
+        // smaller value of the field under test (still on the ladder)
+        if let Some(val) = case.forged.get(case.field) {
+            if let Base::Pow2(k) = val.base {
+                if let Some(pos) = LADDER.iter().position(|x| *x == k) {
+                    if pos > 0 {
+                        let mut f = case.forged.clone();
+                        if let Some(s) = f.slot(case.field) {
+                            *s = Val::pow(LADDER[pos - 1]);
+                        }
+                        v.push(Case { forged: f, ..case.clone() });
+                    }
+                } else if k > 22 {
+                    let mut f = case.forged.clone();
+                    if let Some(s) = f.slot(case.field) {
+                        *s = Val::pow(22);
+                    }
+                    v.push(Case { forged: f, ..case.clone() });
+                }
+            } else if val.base == Base::Max62 {
+                let mut f = case.forged.clone();
+                if let Some(s) = f.slot(case.field) {
+                    *s = Val::pow(22);
+                }
+                v.push(Case { forged: f, ..case.clone() });
+            }
+        }
+        v
+    }
+
+    fn sample(&self, case: &Case) -> serde_json::Value {
+        serde_json::json!({ "target": target_name(&case.forged), "field": case.forged.field_name(case.field), "history_ops": case.hist.len(), "forged": case.forged })
+    }
+}
+
+pub fn target_name(f: &Forged) -> &'static str {
+    match f {
+        Forged::Ack { .. } => "ack-path",
+        Forged::Pn { .. } => "rcvd-journal",
+        Forged::NewCid { .. } => "remote-cids.recv_new_cid",
+        Forged::RetireCid { .. } => "local-cids.recv_retire_cid",
+        Forged::SetLimit { .. } => "local-cids.set_limit",
+        Forged::Crypto { .. } => "crypto.recv_frame",
+        Forged::MaxData { .. } | Forged::DataBlocked { .. } => "flow",
+        _ => "streams",
+    }
+}
+
+// ---------------------------------------------------------------------------------------------
+// generation
+
+/// a value from the C04 value set; `anchors` are the state-relative boundaries that make sense for the field
+pub fn draw_val(r: &mut Rng, anchors: &[Base]) -> Val {
+    let w = r.below(100);
+    if w < 6 {
+        Val::abs(0)
+    } else if w < 12 {
+        Val::abs(1)
+    } else if w < 40 && !anchors.is_empty() {
+        let a = *r.pick(anchors);
+        Val::rel(a, *r.pick(&[-1i64, 0, 1]))
+    } else if w < 78 {
+        Val::pow(*r.pick(&LADDER))
+    } else if w < 90 {
+        Val { base: Base::Pow2(31), off: *r.pick(&[-1i64, 1]) }
+    } else {
+        Val::max()
+    }
+}
+
+/// a benign or boundary value for a field that is not under test
+fn side_val(r: &mut Rng, anchors: &[Base]) -> Val {
+    if anchors.is_empty() || r.one_in(3) { Val::abs(r.below(3)) } else { Val::rel(*r.pick(anchors), *r.pick(&[-1i64, 0, 0, 1])) }
+}
+
+fn hist_len(r: &mut Rng) -> usize {
+    match r.below(10) {
+        0 => 0,
+        1..=4 => r.range(1, 20) as usize,
+        5..=8 => r.range(10, 80) as usize,
+        _ => r.range(80, 200) as usize,
+    }
+}
+
+pub fn generate(seed: u64) -> Case {
+    let mut r = Rng::derive(seed, "workload");
+    let mut f = Rng::derive(seed, "faults");
+    let n = hist_len(&mut r);
+    let target = r.below(100);
+    if target < 26 {
+        // ACK
+        let hist = journal::gen_hist(&mut r, n, true);
+        let nranges = match f.below(10) {
+            0..=3 => 0,
+            4..=7 => f.range(1, 3) as usize,
+            8 => f.range(4, 8) as usize,
+            _ => f.range(20, 60) as usize,
+        };
+        let field = match f.below(100) {
+            0..=24 => Field::Largest,
+            25..=54 => Field::FirstRange,
+            55..=64 => Field::Delay,
+            65..=79 if nranges > 0 => Field::Gap(f.below(nranges.min(3) as u64) as u8),
+            80..=92 if nranges > 0 => Field::Range(f.below(nranges.min(3) as u64) as u8),
+            93..=99 => Field::Ecn(f.below(3) as u8),
+            _ => Field::FirstRange,
+        };
+        let ecn = if matches!(field, Field::Ecn(_)) || f.one_in(5) { Some([side_val(&mut f, &[]), side_val(&mut f, &[]), side_val(&mut f, &[])]) } else { None };
+        let mut forged = Forged::Ack {
+            largest: side_val(&mut f, &[Base::NextPn]),
+            delay: Val::abs(*f.pick(&[0u64, 25, 1000, 100_000])),
+            first_range: side_val(&mut f, &[Base::Floor]),
+            ranges: (0..nranges).map(|_| (Val::abs(f.below(3)), Val::abs(f.below(3)))).collect(),
+            ecn,
+        };
+        let anchors: &[Base] = match field {
+            Field::Largest => &[Base::NextPn],
+            Field::FirstRange | Field::Gap(_) | Field::Range(_) => &[Base::Floor],
+            _ => &[],
+        };
+        let v = draw_val(&mut f, anchors);
+        *forged.slot(field).expect("field exists") = v;
+        // a range field can only carry a large value without leaving the packet number space when Largest
+        // Acknowledged is large too: both shapes are wanted (work in the first, error handling in the second)
+        if matches!(field, Field::FirstRange | Field::Gap(_) | Field::Range(_)) && v.static_magnitude() >= 256 && !f.one_in(4) {
+            if let Forged::Ack { largest, .. } = &mut forged {
+                *largest = if f.one_in(2) { Val::max() } else { Val::pow(40) };
+            }
+        }
+        return Case { seed, hist: Hist::Journal(hist), forged, field };
+    }
+    if target < 36 {
+        // packet number jump
+        let hist = journal::gen_hist(&mut r, n, false);
+        let v = match f.below(10) {
+            0 => Val::rel(Base::Expected, -(f.range(1, 300) as i64)),
+            1 => Val::rel(Base::Expected, f.range(0, 3) as i64),
+            2..=7 => Val::rel(Base::Expected, 1i64 << *f.pick(&LADDER)),
+            8 => Val::rel(Base::Expected, (1i64 << 31) - 1),
+            _ => Val::rel(Base::Expected, (1i64 << 31) - f.range(2, 2000) as i64),
+        };
+        return Case { seed, hist: Hist::Journal(hist), forged: Forged::Pn { target: v, ack_eliciting: !f.one_in(4) }, field: Field::Jump };
+    }
+    if target < 56 {
+        // connection ids
+        let which = f.below(10);
+        if which < 2 {
+            let hist = cid::gen_hist(&mut r, 0, false);
+            let v = match f.below(10) {
+                0 => Val::abs(0),
+                1 => Val::abs(1),
+                2 => Val::abs(2),
+                3 => Val::abs(f.range(3, 16)),
+                _ => draw_val(&mut f, &[]),
+            };
+            return Case { seed, hist: Hist::Cid(hist), forged: Forged::SetLimit { limit: v }, field: Field::Limit };
+        }
+        let hist = cid::gen_hist(&mut r, n.min(60), true);
+        if which < 6 {
+            let field = if f.one_in(2) { Field::Seq } else { Field::Rpt };
+            let forged = match field {
+                Field::Seq => Forged::NewCid { seq: draw_val(&mut f, &[Base::PeerNextSeq, Base::PeerRpt]), rpt: side_val(&mut f, &[Base::PeerRpt]) },
+                _ => {
+                    let v = draw_val(&mut f, &[Base::PeerNextSeq, Base::PeerRpt]);
+                    // Retire Prior To <= Sequence Number, except when the frame-encoding rule itself is the target
+                    let seq = if f.one_in(6) { side_val(&mut f, &[Base::PeerNextSeq]) } else if v.is_anchored() { Val::rel(Base::PeerNextSeq, f.below(2) as i64) } else { v };
+                    Forged::NewCid { seq, rpt: v }
+                }
+            };
+            return Case { seed, hist: Hist::Cid(hist), forged, field };
+        }
+        return Case { seed, hist: Hist::Cid(hist), forged: Forged::RetireCid { seq: draw_val(&mut f, &[Base::LocalNextSeq]) }, field: Field::Seq };
+    }
+    if target < 93 {
+        let hist = stream::gen_hist(&mut r, n);
+        let (forged, field) = stream::gen_forged(&mut f);
+        return Case { seed, hist: Hist::Stream(hist), forged, field };
+    }
+    let hist = stream::gen_crypto_hist(&mut r, n.min(60));
+    let v = draw_val(&mut f, &[Base::CryptoLargest]);
+    Case { seed, hist: Hist::Crypto(hist), forged: Forged::Crypto { offset: v, len: *f.pick(&[0u16, 1, 100, 1200]) }, field: Field::Offset }
+}
